@@ -16,6 +16,17 @@ func (c *Ctx) stateMethod(name string) *ssa.Function {
 	return c.Method("engine", "SearchEngineState", name)
 }
 
+// callersIn: the source functions of a package (other than callee itself) that contain a static call to callee.
+func (c *Ctx) callersIn(pkg string, callee *ssa.Function) []*ssa.Function {
+	var out []*ssa.Function
+	for _, fn := range c.SrcFuncs(pkg) {
+		if fn != callee && len(callsTo(fn, callee)) > 0 {
+			out = append(out, fn)
+		}
+	}
+	return out
+}
+
 func callsTo(fn *ssa.Function, callee *ssa.Function) []*ssa.Call {
 	var out []*ssa.Call
 	instrsOf(fn, func(in ssa.Instruction) {
@@ -362,16 +373,27 @@ func ruleLoopIdentity(c *Ctx, rule string) {
 // ---------------------------------------------------------------------------------------------
 // C09 pieces
 
-// ruleDivision implements C09.R4.
+// ruleDivision implements C09.R4. Divisions inside the process-expression evaluator (executeBinaryExpr and the helpers reachable only
+// through it) are grouped per operator, so that the obligation's key survives a restructuring of the evaluator.
 func ruleDivision(c *Ctx, rule string) {
 	r := c.R
 	reach := c.Reachable(c.runRoots()...)
+	ebe := c.Fn("engine", "executeBinaryExpr")
+	inEvaluator := func(fn *ssa.Function) bool {
+		return ebe != nil && (fn == ebe || (c.Reachable(ebe)[fn] && fn.Pkg == ebe.Pkg && c.onlyThrough(c.runRoots(), ebe, fn)))
+	}
+	type group struct {
+		sites, bad []string
+		pos        string
+	}
+	groups := map[string]*group{}
 	n := 0
 	for _, fn := range sortedFns(reach) {
 		if !c.isRepoFn(fn) {
 			continue
 		}
 		k := 0
+		ev := inEvaluator(fn)
 		instrsOf(fn, func(in ssa.Instruction) {
 			b, ok := in.(*ssa.BinOp)
 			if !ok || (b.Op != token.QUO && b.Op != token.REM) {
@@ -382,12 +404,23 @@ func ruleDivision(c *Ctx, rule string) {
 			}
 			n++
 			k++
-			ob := r.Ob(rule, fmt.Sprintf("%s: integer %s #%d has a non-zero divisor", fnName(fn), b.Op, k), c.pos(b.Pos()))
+			key := fmt.Sprintf("%s: integer %s #%d has a non-zero divisor", fnName(fn), b.Op, k)
+			if ev {
+				key = fmt.Sprintf("process-expression evaluator: integer %s has a tested divisor", b.Op)
+			}
+			g := groups[key]
+			if g == nil {
+				g = &group{pos: c.pos(b.Pos())}
+				groups[key] = g
+			}
+			site := fmt.Sprintf("%s [%s]", fnName(fn), c.pos(b.Pos()))
+			g.sites = append(g.sites, site)
 			if d, ok := constInt(b.Y); ok {
-				ob.Check(d != 0, fmt.Sprintf("constant divisor %d", d), "division by the constant 0")
+				if d == 0 {
+					g.bad = append(g.bad, site+": division by the constant 0")
+				}
 				return
 			}
-			// dominated by a test of the divisor against zero?
 			guarded := false
 			dv := exprStr(b.Y)
 			instrsOf(fn, func(x ssa.Instruction) {
@@ -413,44 +446,62 @@ func ruleDivision(c *Ctx, rule string) {
 					guarded = true
 				}
 			})
-			if guarded {
-				ob.OKnt("dominated by a test of " + dv + " against 0")
-			} else {
-				ob.Bad("the divisor " + dv + " is a run-time value that is never compared with 0: `return 1 / 0` (or `% 0`) in a transform panics with an integer divide by zero")
+			if !guarded {
+				g.bad = append(g.bad, site+": divisor "+dv+" is never compared with 0")
 			}
 		})
+	}
+	for _, key := range sortedKeys(groups) {
+		g := groups[key]
+		ob := r.Ob(rule, key, g.pos)
+		if len(g.bad) == 0 {
+			ob.OKnt(fmt.Sprintf("%d site(s): constant non-zero divisor or dominated by a test against 0", len(g.sites)))
+		} else {
+			ob.Bad("a run-time divisor can be zero: " + strings.Join(g.bad, "; ") + " — `return 1 / 0` (or `% 0`) in a transform panics with an integer divide by zero")
+		}
 	}
 	r.Floor(rule, "integer divisions reachable from Run", n, 1)
 }
 
-// ruleInstructionFetch implements C09.R5.
+// ruleInstructionFetch implements C09.R5. The fetch sites are found by role: the index expression that produces the instruction
+// handed to matchInstruction / executeReplace, in whatever function makes that call.
 func ruleInstructionFetch(c *Ctx, rule string) {
 	r := c.R
-	for _, spec := range []struct{ fn, coll, desc string }{
-		{"findMatches", "insts", "search instruction fetch"}, {"searchReplace", "Replacer", "replace instruction fetch"},
+	for _, spec := range []struct{ callee, desc string }{
+		{"matchInstruction", "search instruction fetch"}, {"executeReplace", "replace instruction fetch"},
 	} {
-		fn := c.Fn("engine", spec.fn)
-		if fn == nil {
-			r.Ob(rule, spec.fn, "").Und("not found")
+		callee := c.Fn("engine", spec.callee)
+		if callee == nil {
+			r.Ob(rule, spec.desc, "").Und("engine." + spec.callee + " not found")
 			continue
 		}
-		k := 0
-		for _, s := range indexSites(fn) {
-			cs := exprStr(s.coll)
-			if !strings.HasSuffix(cs, spec.coll) {
-				continue
-			}
-			k++
-			ob := r.Ob(rule, fmt.Sprintf("%s: %s #%d is inside the program", spec.fn, spec.desc, k), c.pos(s.in.Pos()))
-			n := normalise(s.idx)
-			if guardedByExpr(fn, s.coll, s.idx, s.in) {
-				ob.OKnt("dominated by a comparison of the program counter with len(" + cs + ")")
-			} else {
-				ob.Bad("instruction " + cs + "[" + exprStr(n.base) + "] is fetched without a dominating test of the program counter against len(" + cs + "): an empty body (`find all`) or a jump to the end indexes out of range")
+		n := 0
+		for _, fn := range c.callersIn("engine", callee) {
+			for _, call := range callsTo(fn, callee) {
+				inst := call.Call.Args[0]
+				var site *indexSite
+				for _, s := range indexSites(fn) {
+					s := s
+					// the loaded element is the instruction passed to the dispatcher
+					if ld, ok := inst.(*ssa.UnOp); ok && ld.X == s.in.(ssa.Value) {
+						site = &s
+					}
+				}
+				if site == nil {
+					continue
+				}
+				n++
+				ob := r.Ob(rule, fmt.Sprintf("%s #%d is inside the program", spec.desc, n), c.pos(site.in.Pos()))
+				cs := exprStr(site.coll)
+				if guardedByExpr(fn, site.coll, site.idx, site.in) {
+					ob.OKnt("in " + fnName(fn) + ": dominated by a comparison of the program counter with len(" + cs + ")")
+				} else {
+					ob.Bad("in " + fnName(fn) + ": instruction " + cs + "[" + exprStr(site.idx) + "] is fetched without a dominating test of the program counter against len(" + cs + "): an empty body (`find all`) or a jump to the end indexes out of range")
+				}
 			}
 		}
-		if k == 0 {
-			r.Ob(rule, spec.fn+": "+spec.desc, c.pos(fn.Pos())).Und("no index into " + spec.coll + " found")
+		if n == 0 {
+			r.Ob(rule, spec.desc, c.pos(callee.Pos())).Und("no indexed fetch feeding " + spec.callee + " found")
 		}
 	}
 }
@@ -567,6 +618,31 @@ func ruleStackAPI(c *Ctx, rule string, trusted map[string]string) {
 					}
 					if bounded {
 						continue
+					}
+					// downward counting loop: i starts at recv.Size()-1, only decreases, and `i >= 0` dominates the call
+					if phi, ok := call.Call.Args[1].(*ssa.Phi); ok {
+						startsAtTop, onlyDown := false, true
+						for _, e := range phi.Edges {
+							es := exprStr(e)
+							switch {
+							case es == "(int("+recv+".Size()) - 1)" || es == "("+recv+".Size() - 1)":
+								startsAtTop = true
+							case es == "("+exprStr(phi)+" - 1)":
+							default:
+								onlyDown = false
+							}
+						}
+						nonNeg := false
+						for _, b := range fn.Blocks {
+							if iff, ok := b.Instrs[len(b.Instrs)-1].(*ssa.If); ok {
+								if exprStr(iff.Cond) == "("+exprStr(phi)+" >= 0)" && (b.Succs[0] == call.Block() || b.Succs[0].Dominates(call.Block())) {
+									nonNeg = true
+								}
+							}
+						}
+						if startsAtTop && onlyDown && nonNeg {
+							continue
+						}
 					}
 				}
 				allOK = false
@@ -762,9 +838,10 @@ func ruleMonotoneTypes(c *Ctx, rule string) {
 		r.Ob(rule, "checker environment updates", "").Und("no update of ProcessTypeInfo.environment found")
 		return
 	}
-	for i, mu := range updates {
+	ob := r.Ob(rule, "process-type checker: the recorded type of a variable is bound monotonically", c.pos(updates[0].Pos()))
+	var bad []string
+	for _, mu := range updates {
 		fn := mu.Parent()
-		ob := r.Ob(rule, fmt.Sprintf("%s: binding #%d of a variable's type is monotone", fnName(fn), i+1), c.pos(mu.Pos()))
 		// the update must be control-dependent on a lookup of the same key in the same map
 		cds := NewPostDom(fn).ControlDeps()
 		guarded := false
@@ -774,10 +851,13 @@ func ruleMonotoneTypes(c *Ctx, rule string) {
 				guarded = true
 			}
 		}
-		if guarded {
-			ob.OKnt("the update is conditional on what the environment already says about the same variable")
-		} else {
-			ob.Bad("`set` overwrites the recorded type of a variable unconditionally although the checker is flow-insensitive: after `set x to 'a' if c then set x to true end` the checker believes x is a boolean, accepts `x and true`, and the evaluator panics with SHOULDN'T GET HERE when the branch was not taken")
+		if !guarded {
+			bad = append(bad, fmt.Sprintf("%s [%s]", fnName(fn), c.pos(mu.Pos())))
 		}
+	}
+	if len(bad) == 0 {
+		ob.OKnt(fmt.Sprintf("%d update(s) of the environment, each conditional on what it already says about the same variable", len(updates)))
+	} else {
+		ob.Bad("`set` overwrites the recorded type of a variable unconditionally (" + strings.Join(bad, ", ") + ") although the checker is flow-insensitive: after `set x to 'a' if c then set x to true end` the checker believes x is a boolean, accepts `x and true`, and the evaluator panics with SHOULDN'T GET HERE when the branch was not taken")
 	}
 }
